@@ -46,6 +46,23 @@ func main() {
 		code = cmdBuild(os.Args[2:])
 	case "run":
 		code = cmdRun(os.Args[2:])
+	case "plan":
+		// prints the number of planned random runs per tier (sizing aid)
+		for _, prop := range []string{"C01", "C02", "C03", "C04", "C05", "C07", "C08", "C09", "C10", "C11", "C16", "C19", "C20"} {
+			for _, tier := range []string{"quick", "thorough"} {
+				pl := plans[prop](tier, 20260926)
+				n := 0
+				for _, ph := range pl.Phases {
+					for _, g := range ph.Groups {
+						for _, j := range g.Jobs {
+							n += j.Count
+						}
+					}
+				}
+				fmt.Printf("%s %-8s %8d planned random runs\n", prop, tier, n)
+			}
+		}
+		os.Exit(0)
 	case "selftest":
 		code = cmdSelftest(os.Args[2:])
 	default:
